@@ -87,7 +87,7 @@ fn mk_prop(p: &Prop, stores: &[jbk::creator::StoreHandle]) -> schema::Property<&
     let n = leak(&p.name);
     match p.typ.as_str() {
         "uint" | "ref" => schema::Property::new_uint(n),
-        "sint" => schema::Property::new_sint(n),
+        "sint" | "sref" => schema::Property::new_sint(n),
         "content" => schema::Property::new_content_address(n),
         "array" => schema::Property::new_array(p.prefix, stores[p.store].clone(), n),
         t => panic!("unknown property type {t}"),
@@ -120,6 +120,11 @@ pub fn to_value(v: &J, handles: &[jbk::Bound<jbk::EntryIdx>]) -> jbk::Value {
         ))
     } else if let Some(r) = v.get("r") {
         jbk::Value::UnsignedWord(handles[r.as_u64().unwrap() as usize].clone().into())
+    } else if let Some(r) = v.get("rs") {
+        // the same reference in a signed column: a lazy signed word reading the target's position
+        let b = handles[r.as_u64().unwrap() as usize].clone();
+        let f: Box<dyn Fn() -> i64 + Sync + Send> = Box::new(move || b.get().into_u32() as i64);
+        jbk::Value::SignedWord(f.into())
     } else {
         panic!("bad value {v}")
     }
@@ -382,7 +387,7 @@ fn typed_entry(
                     let b: IntProperty = lp.as_builder(vs).map_err(e)?.ok_or_else(missing)?;
                     json!({"u": b.create(&reader).map_err(e)?})
                 }
-                "sint" => {
+                "sint" | "sref" => {
                     let b: SignedProperty = lp.as_builder(vs).map_err(e)?.ok_or_else(missing)?;
                     json!({"s": b.create(&reader).map_err(e)?})
                 }
